@@ -68,6 +68,7 @@ func init() {
 	register("C02",
 		"Structural necessary conditions of the GeoJSON/BSON round trip: the type-name tables of the JSON and BSON decoders agree with each other, with the GeoJSONType() constants and with the RFC 7946 nesting depths; marshal and unmarshal documents name the same members; Ring/Bound/Collection can never land in \"coordinates\"; member loops complete; NewGeometry/NewFeature total on every kind/shape. Float text round trip, properties/id/foreign members and byte-identical re-marshal are NOT decided (inside encoding/json and the bson driver).",
 		ruleGeoJSONTables,
+		ruleNullGuardSiblings,
 		ruleMemberLoops(inPkgs("geojson."), 3, 0),
 		ruleLoopShapes(inPkgs("geojson."), 3, 2),
 		ruleContainerReset(inPkgs("geojson."), 2),
@@ -159,6 +160,7 @@ func init() {
 
 	register("C14",
 		"Structural necessary conditions of 'tile covers contain every tile touched': every member of a multi-geometry/collection contributes (no loop cut after its first member, no skipped prefix) and the line walk visits every segment. The DDA, scan fill and merge arithmetic are NOT decided.",
+		ruleMergeSiblings,
 		ruleRunOnce(inPkgs("maptile/tilecover."), 15),
 		ruleMemberLoops(inPkgs("maptile/tilecover."), 5, 1),
 		ruleShapeFaults(shapeConfig{label: "tilecover", keep: inPkgs("maptile/tilecover."), floor: 8}),
